@@ -553,6 +553,23 @@ class Interp:
             b = b.get() if isinstance(b, Cell) else b
             if isinstance(a, dict) and '__struct__' in a and op in ('Lt', 'Le', 'Gt', 'Ge'):
                 k_ = self._impl_method(a['__struct__'], 'partial_cmp', 'std::cmp::PartialOrd')
+                der_ = [im for im in (self.facts or {}).get('impls', []) if im['self'] == a['__struct__'] and (im.get('trait') or '').startswith('std::cmp::PartialOrd') and im.get('derived')]
+                if der_ and isinstance(b, dict) and b.get('__struct__') == a['__struct__']:
+                    # derive(PartialOrd): lexicographic over the fields in declaration order
+                    adt_ = self.facts['adts'].get(a['__struct__'])
+                    order_ = [f_[0] for f_ in adt_['variants'][0]['fields']] if adt_ else sorted(k for k in a if k != '__struct__')
+
+                    def key_(x):
+                        if isinstance(x, dict) and '__struct__' in x:
+                            ad2_ = self.facts['adts'].get(x['__struct__'])
+                            return tuple(key_(x[f_[0]]) for f_ in ad2_['variants'][0]['fields']) if ad2_ else tuple(key_(x[k]) for k in sorted(x) if k != '__struct__')
+                        if isinstance(x, (list, tuple)):
+                            return tuple(key_(y) for y in x)
+                        if isinstance(x, (int, bool, str, float)):
+                            return x
+                        raise NoEval('derived comparison of %r' % (x,))
+                    ka_, kb_ = tuple(key_(a[f_]) for f_ in order_), tuple(key_(b[f_]) for f_ in order_)
+                    return {'Lt': ka_ < kb_, 'Le': ka_ <= kb_, 'Gt': ka_ > kb_, 'Ge': ka_ >= kb_}[op]
                 if k_ is None:
                     raise NoEval('comparison of %s' % a['__struct__'])
                 o_ = self.local_call(k_, [a, b])
